@@ -300,11 +300,6 @@ pub proof fn lemma_flat_words(ch: Seq<&SyntaxNode>)
 
 /// the children of an argument list from its opening parenthesis up to (not including) the closing one: a contiguous run
 pub uninterp spec fn paren_untyped_s<'a>(args: &'a SyntaxNode) -> Seq<&'a SyntaxNode>;
-#[verifier::external_body]
-pub proof fn pf_paren_untyped(args: &SyntaxNode)
-    requires tree_wf(args),
-    ensures exists|a: int, b: int| 0 <= a <= b <= args.children_s().len() && paren_untyped_s(args) == #[trigger] args.children_s().subrange(a, b),
-{}
 
 /// the document `convert_expr` yields is a function of the context it is given and of the node (C17; used to state that a producer
 /// passes on the context the engine hands it -- e.g. code mode directly after a `#` -- instead of one captured from outside)
